@@ -11,6 +11,7 @@ package memhier
 
 import (
 	"archive/tar"
+	"bufio"
 	"bytes"
 	"compress/gzip"
 	"crypto/sha256"
@@ -30,6 +31,7 @@ import (
 	"sync"
 
 	"github.com/sarchlab/akita/v5/hooking"
+	"github.com/sarchlab/akita/v5/mem/memcontrolprotocol"
 	"github.com/sarchlab/akita/v5/mem/memprotocol"
 	"github.com/sarchlab/akita/v5/mem/vm"
 	"github.com/sarchlab/akita/v5/messaging"
@@ -263,7 +265,8 @@ func (s *ckSim) quiesce() {
 // ---------------------------------------------------------------- child process protocol
 
 type ckProcIn struct {
-	Mode  string `json:"mode"` // ref | a | b | canon
+	Mode  string `json:"mode"` // ref | a | b | canon | flushdet
+	Reps  int    `json:"reps"` // flushdet: repetitions on fresh simulations inside this process
 	Case  Case   `json:"case"`
 	T     uint64 `json:"t"`
 	Ck    string `json:"ck"`
@@ -272,12 +275,13 @@ type ckProcIn struct {
 }
 
 type ckProcOut struct {
-	Recs     []map[string]any `json:"recs"`
-	Err      string           `json:"err"`
-	Rejected string           `json:"rejected"` // the builders refused the stack
-	Panicked string           `json:"panicked"`
-	InBuf    bool             `json:"in_buf"`
-	InFlight int              `json:"in_flight"`
+	Recs     []map[string]any   `json:"recs"`
+	RepRecs  [][]map[string]any `json:"rep_recs,omitempty"` // flushdet: one stream per repetition
+	Err      string             `json:"err"`
+	Rejected string             `json:"rejected"` // the builders refused the stack
+	Panicked string             `json:"panicked"`
+	InBuf    bool               `json:"in_buf"`
+	InFlight int                `json:"in_flight"`
 }
 
 func safely(f func() error) (err error, panicked string) {
@@ -290,6 +294,9 @@ func safely(f func() error) (err error, panicked string) {
 }
 
 func runCkProc(in ckProcIn) (out ckProcOut) {
+	if in.Mode == "flushdet" {
+		return runFlushDet(in)
+	}
 	start := map[string]uint64{"ref": 0, "a": 0, "b": 777777, "canon": 424242}[in.Mode]
 	resetIDs(start) // a different process starts with its own counter: the restore must set it
 	s, err := newCkSim(in.Dir, in.Case, nil)
@@ -1156,4 +1163,234 @@ func withWorkOrBuf(rs []cutResult) int {
 	return n
 }
 
-func init() { registerCkpt() }
+// ---------------------------------------------------------------- control histories (C03)
+
+// flushObs merges, in engine order, every handled event (chunked), every message that crosses
+// the Bottom port of a cache (with its ID and address), every control request the requester
+// sends, and the requester's own records (issue / response / control acks / flush records).
+type flushObs struct {
+	eng   *timing.SerialEngine
+	agent *Agent
+	pos   int
+	recs  []map[string]any
+	acts  []string
+}
+
+func (o *flushObs) flushActs() {
+	if len(o.acts) > 0 {
+		o.recs = append(o.recs, map[string]any{"e": "acts", "ev": o.acts})
+		o.acts = nil
+	}
+}
+
+// drain moves the requester's new records into the stream.
+func (o *flushObs) drain() {
+	for ; o.pos < len(o.agent.recs); o.pos++ {
+		o.flushActs()
+		b, _ := json.Marshal(o.agent.recs[o.pos])
+		var m map[string]any
+		_ = json.Unmarshal(b, &m)
+		delete(m, "t") // nanoseconds; the handled events carry the exact time
+		o.recs = append(o.recs, m)
+	}
+}
+
+func (o *flushObs) Func(ctx hooking.HookCtx) {
+	switch ctx.Pos {
+	case timing.HookPosBeforeEvent:
+		o.drain()
+		evt := ctx.Item.(timing.Event)
+		o.acts = append(o.acts, fmt.Sprintf("%d|%s|%d", uint64(evt.Time()), evt.HandlerID(), eventID(evt)))
+		if len(o.acts) >= 32 {
+			o.flushActs()
+		}
+	case messaging.HookPosPortMsgSend, messaging.HookPosPortMsgRecvd:
+		o.drain()
+		o.flushActs()
+		msg, ok := ctx.Item.(messaging.Msg)
+		if !ok {
+			return
+		}
+		meta := msg.Meta()
+		dir := "send"
+		if ctx.Pos == messaging.HookPosPortMsgRecvd {
+			dir = "recv"
+		}
+		rec := map[string]any{"e": "msg", "port": ctx.Domain.(messaging.Port).Name(), "dir": dir, "m": int(meta.ID), "rspto": int(meta.RspTo),
+			"dst": string(meta.Dst), "k": fmt.Sprintf("%T", msg), "t": strconv.FormatUint(uint64(o.eng.CurrentTime()), 10)}
+		switch m := msg.(type) {
+		case memprotocol.ReadReq:
+			rec["addr"] = strconv.FormatUint(m.Address, 10)
+		case memprotocol.WriteReq:
+			rec["addr"] = strconv.FormatUint(m.Address, 10)
+		case memcontrolprotocol.Req:
+			rec["cmd"], rec["filter"], rec["pid"] = cmdName[m.Command], len(m.Addresses), int(m.PID)
+		case memcontrolprotocol.Rsp:
+			rec["cmd"], rec["ok"] = cmdName[m.Command], m.Success
+		}
+		o.recs = append(o.recs, rec)
+	}
+}
+
+// runFlushDet runs one control history Reps times on fresh simulations (IDs reset each time).
+func runFlushDet(in ckProcIn) (out ckProcOut) {
+	for rep := 0; rep < max(in.Reps, 1); rep++ {
+		resetIDs(0)
+		ckSimCount++
+		sim := simulation.MakeBuilder().WithoutMonitoring().WithOutputFileName(filepath.Join(in.Dir, fmt.Sprintf("rec%d_%d", os.Getpid(), ckSimCount))).Build()
+		st, err := BuildStackOn(sim, in.Case.Stack.Clone())
+		if err != nil {
+			sim.Terminate()
+			out.Rejected = err.Error()
+			return out
+		}
+		eng := sim.GetEngine().(*timing.SerialEngine)
+		st.Engine = eng
+		a := NewAgent(st, in.Case.Work)
+		obs := &flushObs{eng: eng, agent: a}
+		eng.AcceptHook(obs)
+		for _, c := range st.Caches() {
+			c.Bottom.AcceptHook(obs)
+		}
+		a.ctl.AcceptHook(obs)
+		var livelock bool
+		_, out.Panicked = safely(func() error { a.Start(); livelock = runGuarded(st, a); return nil })
+		obs.drain()
+		obs.flushActs()
+		obs.recs = append(obs.recs, map[string]any{"e": "quiesce", "t": strconv.FormatUint(uint64(eng.CurrentTime()), 10),
+			"outstanding": len(a.inflight), "unissued": a.Unissued(), "answered": a.answered, "livelock": livelock})
+		fp := filepath.Join(in.Dir, fmt.Sprintf("fd%d_%d.final", os.Getpid(), rep))
+		if err := sim.SaveCheckpoint(fp, ckBuildID); err != nil {
+			out.Err = err.Error()
+		} else if final, err := readCkArchive(fp); err == nil {
+			var names []string
+			for n := range final {
+				names = append(names, n)
+			}
+			sort.Strings(names)
+			for _, n := range names {
+				sum := sha256.Sum256(final[n])
+				obs.recs = append(obs.recs, map[string]any{"e": "final", "entity": n, "sha": hex.EncodeToString(sum[:8])})
+			}
+		}
+		_ = os.Remove(fp)
+		sim.Terminate()
+		out.RepRecs = append(out.RepRecs, obs.recs)
+		if out.Panicked != "" || out.Err != "" {
+			return out
+		}
+	}
+	return out
+}
+
+// flushCases draws stacks with at least one write-back cache and a workload interrupted by the
+// drain / filtered flushes / full flush / enable programme.
+func flushCases(in *ckGenIn, filters int) []Case {
+	out := append([]Case{}, in.Cases...)
+	for i := 0; i < in.Stacks; i++ {
+		rng := rand.New(rand.NewSource(in.Seed*999_983 + int64(i)*104_729 + 77))
+		o := GenOpts{MaxDepth: 2 + i%2, NeedWriteBack: true}
+		if len(in.Leaves) > 0 {
+			o.Leaf = in.Leaves[i%len(in.Leaves)]
+		}
+		c := Case{Stack: RandomStack(rng, o)}
+		// more ways than the generator's default so that several dirty lines are resident at the flush
+		walk(c.Stack.Top, func(n *Node, _ int) {
+			if n.Kind == "writeback" && n.Sets*n.Ways < 4 {
+				n.Ways = 4
+			}
+		})
+		c.Work = RandomWorkload(rng, &c.Stack, WorkOpts{Requests: in.Requests})
+		n := len(c.Work.Script)
+		c.Work.Flush = &FlushCfg{At: n - n/4, InFlight: i%2 == 1, Filters: filters, Seed: in.Seed*3 + int64(i)*3} // seed%3 == 0: the first filter is an address list
+		out = append(out, c)
+	}
+	return out
+}
+
+func init() {
+	registerCkpt()
+	// memhier_det_flush: control histories (C17 scenarios) for C03; every scenario runs Reps times in one
+	// child process. Out: the repetitions in order 0,1,2..; OutRot: the same stream with the repetitions
+	// rotated by one (equal to Out iff all repetitions are equal).
+	reg.Register("memhier_det_flush", func(raw json.RawMessage) (any, error) {
+		var in struct {
+			ckGenIn
+			Filters int    `json:"filters"`
+			Reps    int    `json:"reps"`
+			Out     string `json:"out"`
+			OutRot  string `json:"out_rot"`
+		}
+		if err := json.Unmarshal(raw, &in); err != nil {
+			return nil, err
+		}
+		dir, _ := os.MkdirTemp("", "mhdetf-")
+		defer os.RemoveAll(dir)
+		k := &ckRunner{dir: dir}
+		cases := flushCases(&in.ckGenIn, in.Filters)
+		outs := make([]ckProcOut, len(cases))
+		errs := make([]error, len(cases))
+		parallelDo(len(cases), func(i int) {
+			outs[i], errs[i] = k.exec(ckProcIn{Mode: "flushdet", Case: cases[i], Reps: max(in.Reps, 1)})
+		})
+		write := func(path string, shift int) (int, error) {
+			f, err := os.Create(path)
+			if err != nil {
+				return 0, err
+			}
+			defer f.Close()
+			w := bufio.NewWriterSize(f, 1<<20)
+			defer w.Flush()
+			enc := json.NewEncoder(w)
+			n := 0
+			for i, o := range outs {
+				if o.Rejected != "" {
+					continue
+				}
+				_ = enc.Encode(map[string]any{"e": "stack", "sys": i, "desc": cases[i].Stack.Describe()})
+				n++
+				for r := range o.RepRecs {
+					for _, rec := range o.RepRecs[(r+shift)%len(o.RepRecs)] {
+						rec["sys"], rec["rep"] = i, r
+						_ = enc.Encode(rec)
+						n++
+					}
+				}
+			}
+			return n, nil
+		}
+		stacks, flushes, multi := 0, 0, 0
+		for i, o := range outs {
+			if errs[i] != nil {
+				return nil, errs[i]
+			}
+			if o.Rejected != "" {
+				continue
+			}
+			if o.Panicked != "" || o.Err != "" {
+				return nil, fmt.Errorf("stack %d (%s): %s %s", i, cases[i].Stack.Describe(), o.Panicked, o.Err)
+			}
+			stacks++
+			for _, rec := range o.RepRecs[0] {
+				if rec["e"] == "flush" {
+					flushes++
+					if w, ok := rec["wrote"].([]any); ok && len(w) >= 2 {
+						if a, ok := rec["addrs"].([]any); ok && len(a) > 0 {
+							multi++
+						}
+					}
+				}
+			}
+		}
+		n, err := write(in.Out, 0)
+		if err != nil {
+			return nil, err
+		}
+		if in.OutRot != "" {
+			if _, err := write(in.OutRot, 1); err != nil {
+				return nil, err
+			}
+		}
+		return map[string]any{"stacks": stacks, "records": n, "flushes": flushes, "address_flushes_of_several_dirty_lines": multi, "reps": max(in.Reps, 1)}, nil
+	})
+}
